@@ -291,6 +291,29 @@ func (s *dSpan) Finish() {
 		s.ctx.log.add("!CHILD-FINISHED-AS-ROOT(" + s.name + ")")
 	}
 }
+
+// a handler call that waits: the script holds it (the command lock is held meanwhile) until step G
+var handlerGate = struct {
+	mu sync.Mutex
+	ch chan struct{}
+}{ch: make(chan struct{})}
+
+func gateWait() {
+	handlerGate.mu.Lock()
+	ch := handlerGate.ch
+	handlerGate.mu.Unlock()
+	select {
+	case <-ch:
+	case <-time.After(10 * time.Second):
+	}
+}
+
+func gateRelease() {
+	handlerGate.mu.Lock()
+	close(handlerGate.ch)
+	handlerGate.ch = make(chan struct{})
+	handlerGate.mu.Unlock()
+}
 func (s *dSpan) Context() context.Context             { return nil }
 func (s *dSpan) StartSpan(name string) tracer.Context { return s.ctx }
 
@@ -299,8 +322,19 @@ type dContext struct {
 	stack []*dSpan
 }
 
-func (c *dContext) Span() tracer.Span { return c.stack[len(c.stack)-1] }
+func (c *dContext) Span() tracer.Span {
+	if len(c.stack) == 0 {
+		// go-tracing's span stack (tracer/common) answers nil here: whoever finishes that span dereferences nil
+		c.log.add("!SPAN-OF-EMPTY-STACK")
+		return nil
+	}
+	return c.stack[len(c.stack)-1]
+}
 func (c *dContext) StartSpan(name string) bool {
+	if len(c.stack) == 0 {
+		c.log.add("!CHILD-STARTED-ON-EMPTY-STACK(" + name + ")")
+		return false
+	}
 	if c.stack[0].finished {
 		c.log.add("!CHILD-STARTED-AFTER-ROOT-FINISH(" + name + ")")
 	}
@@ -309,13 +343,24 @@ func (c *dContext) StartSpan(name string) bool {
 	return true
 }
 func (c *dContext) FinishSpan() bool {
-	if len(c.stack) <= 1 {
+	if len(c.stack) == 0 {
 		c.log.add("!FINISH-WITHOUT-OPEN-CHILD")
 		return false
 	}
 	top := c.stack[len(c.stack)-1]
-	top.finished = true
 	c.stack = c.stack[:len(c.stack)-1]
+	if top.root {
+		// as the library does: the root is popped and finished like any other span - and is no longer there for the caller
+		c.log.add("!FINISH-WITHOUT-OPEN-CHILD")
+		c.stack = append(c.stack, top) // Finish() below inspects the stack
+		top.Finish()
+		c.stack = c.stack[:len(c.stack)-1]
+		return true
+	}
+	if top.finished {
+		c.log.add("!DOUBLE-FINISH(" + top.name + ")")
+	}
+	top.finished = true
 	c.log.add("SF")
 	return true
 }
@@ -434,6 +479,10 @@ func (d *double) answer(conn *redis.Conn, method string, key string, text string
 	r, ok := d.table[method+":"+hx([]byte(key))]
 	if !ok {
 		r = d.def
+	}
+	if key == "slowkey" { // the call stays inside the handler (and the command lock) until the script releases it
+		l.add("GATE")
+		gateWait()
 	}
 	return r.build()
 }
